@@ -290,6 +290,13 @@ Definition obs_written (sum : bool) (used : N) (out : bytes) : list tok :=
   if sum then [w "ok"; TN used; TN (len out); TN (checksum out)]
   else [w "ok"; TN used; TN (len out); TH out].
 
+(** A write on a single-call object that fails AFTER the request analysis succeeded (the head does not fit the output, the body write
+    is refused) leaves the Rust call analysed -- headers amended, body writer installed --; only a failing analysis leaves it as it was.
+    For a call inside a flow this is not observable (every later operation analyses again and the flow cannot leave SendRequest before
+    a write succeeded); for the single-call API it is: [Call::into_receive] looks at the installed writer. *)
+Definition call_after_failed_write (c : call) : call :=
+  match analyze_request c with Ok c1 => c1 | _ => c end.
+
 Definition do_write_body (s : sstate) (input : bytes) (cap : N) (track sum : bool) : sstate * list tok :=
   match s_obj s with
   | ObFlow TSendBody f =>
@@ -305,7 +312,7 @@ Definition do_write_body (s : sstate) (input : bytes) (cap : N) (track sum : boo
       | Ok (c', used, out) =>
           let s' := with_obj s (ObCall HWithBody c') in
           (if track then add_sent s' used else s', obs_written sum used out)
-      | Err e => (s, obs_err e)
+      | Err e => (with_obj s (ObCall HWithBody (call_after_failed_write c)), obs_err e)
       | Panic _ => (s, obs_panic)
       end
   | _ => (s, obs_np)
@@ -315,6 +322,13 @@ Definition obs_opt_bytes (o : option bytes) : list tok :=
   match o with Some b => [w "some"; TH b] | None => [w "none"] end.
 
 Definition flow_request (f : inner) : amended := c_req (i_call f).
+
+Definition do_call_into_receive (s : sstate) (c : call) : sstate * list tok :=
+  match into_receive c with
+  | Ok c' => (with_obj s (ObCall HRecvResponse c'), [w "call"; w "RecvResponse"])
+  | Err e => (with_obj s ObNone, obs_err e)
+  | Panic _ => (s, obs_panic)
+  end.
 
 Definition step (s : sstate) (o : op) : sstate * list tok :=
   match o, s_obj s with
@@ -367,7 +381,7 @@ Definition step (s : sstate) (o : op) : sstate * list tok :=
   | OWriteHead cap, ObCall HWithoutBody c =>
       match call_write_nobody c cap with
       | Ok (c', out) => (with_obj s (ObCall HWithoutBody c'), [w "ok"; TN (len out); TH out])
-      | Err e => (s, obs_err e)
+      | Err e => (with_obj s (ObCall HWithoutBody (call_after_failed_write c)), obs_err e)
       | Panic _ => (s, obs_panic)
       end
   | OWriteBody input cap, _ => do_write_body s input cap false false
@@ -435,6 +449,38 @@ Definition step (s : sstate) (o : op) : sstate * list tok :=
                   (fun c => obs_headers (hm_iter (fold_left (fun m h => hm_insert m (fst h) (snd h)) (am_headers (c_req c)) []))))
   | OQIsFinished, ObCall HWithoutBody c => (s, obs_bool (negb (is_prelude (c_phase c))))
   | OQIsFinished, ObCall HWithBody c => (s, obs_bool (w_ended (c_writer c)))
+  (* ---- the single-call API past the request: Call::into_receive, Call<RecvResponse>::try_response / is_finished / into_body,
+          Call<RecvBody>::read / stop_on_chunk_boundary / is_on_chunk_boundary / is_ended.
+          into_receive and into_body consume the call: on an error, or when into_body answers "no body", the object is gone. *)
+  | OProceed, ObCall HWithoutBody c => do_call_into_receive s c
+  | OProceed, ObCall HWithBody c => do_call_into_receive s c
+  | OProceed, ObCall HRecvResponse c =>
+      match c_reader c with
+      | None => (with_obj s ObNone, obs_err IncompleteResponse)
+      | Some RNoBody => (with_obj s ObNone, [w "none"])
+      | Some _ => (with_obj s (ObCall HRecvBody (set_phase c PRecvBody)), [w "call"; w "RecvBody"])
+      end
+  | ORawTryResponse b, ObCall HRecvResponse c =>
+      match call_try_response c b with
+      | Ok (c', got) =>
+          (with_obj s (ObCall HRecvResponse c'),
+           match got with
+           | None => [w "none"; TN 0]
+           | Some (used, r) => [w "some"; TN used] ++ obs_response r
+           end)
+      | Err e => (s, obs_err e)
+      | Panic _ => (s, obs_panic)
+      end
+  | ORawRead b cap, ObCall HRecvBody c =>
+      match call_read c b cap with
+      | Ok (c', i, o) => (with_obj s (ObCall HRecvBody c'), [w "ok"; TN i; TN (len o); TH o])
+      | Err e => (with_obj s (ObCall HRecvBody (call_read_after_err c b cap)), obs_err e)
+      | Panic _ => (s, obs_panic)
+      end
+  | OStop b, ObCall HRecvBody c => (with_obj s (ObCall HRecvBody (set_stop c b)), [w "ok"])
+  | OQIsFinished, ObCall HRecvResponse c => (s, obs_bool (match c_reader c with Some _ => true | None => false end))
+  | OQIsFinished, ObCall HRecvBody c => (s, obs_res (reader_of c) (fun r => obs_bool (reader_is_ended r)))
+  | OQBoundary, ObCall HRecvBody c => (s, obs_res (reader_of c) (fun r => obs_bool (reader_on_boundary r)))
   | _, _ => (s, obs_np)
   end.
 
